@@ -367,20 +367,23 @@ Proof.
     sbind. apply sound_read_bytes. sbind. apply sound_st_string_bytes; auto. apply sound_ret; auto.
 Qed.
 
-Lemma sound_nlv_loop n k c buf e :
-  sub_window buf -> sound (nlv_loop n k c buf e) (fun r => sub_window (fst r)).
+Lemma sound_nlv_loop n k c buf e keys :
+  sub_window buf -> sound (nlv_loop n k c buf e keys) (fun r => sub_window (fst r)).
 Proof.
-  revert k buf e; induction c as [|c IH]; intros k buf e Hb; simpl. apply sound_ret; auto.
+  revert k buf e keys; induction c as [|c IH]; intros k buf e keys Hb; simpl. apply sound_ret; auto.
   sbind. apply sound_load_lrv.
   sbind. apply sound_alloc. repeat constructor.
   sbind. apply sound_load_lrv.
   destruct a1 as [r v].
   destruct ((length r =? 0) || (s_len v =? 0)). apply IH; auto.
+  sbind. apply sound_st_string_bytes. apply sub_window_nil.
+  sbind. apply sound_read_bytes.
+  match goal with |- context [existsb (bytes_eqb ?x) keys] => destruct (existsb (bytes_eqb x) keys) end. apply IH; auto.
   sbind. instantiate (1 := sub_window). destruct e. apply sound_ret; auto. apply sound_append_bytes; auto.
   sbind. instantiate (1 := sub_window). destruct (bytes_eqb r nil_lang_ref); [|apply sound_ret; auto].
   sbind. apply sound_st_string_bytes; auto. apply sound_append_bytes; auto.
   sbind. apply sound_lrv_marshal.
-  destruct a3 as [j|]; [|apply IH; auto].
+  match goal with |- sound (match ?o with Some _ => _ | None => _ end) _ => destruct o as [j|] end; [|apply IH; auto].
   destruct (0 <? s_len j); [|apply IH; auto].
   sbind. apply sound_read_bytes. sbind. apply sound_append_bytes; auto. apply IH; auto.
 Qed.
